@@ -379,6 +379,13 @@ func (o *oracle) blockTransition(cidr string, nb *blockShadow, wr store.Write, s
 				o.allocEvents[wr.Actor] = append(o.allocEvents[wr.Actor], &allocEvent{ip: ip, handle: b.handle, seq: seq, opID: op.id})
 				o.checkAllocContext(cidr, nb, ip, op, act, seq)
 			}
+		case a.kind == kCooling && b.kind == kCooling:
+			// "releasing an already released address is a harmless no-op": a second release must not touch the
+			// cooldown record (a later ReleasedAt restarts the cooldown and delays the address's turn in the queue)
+			if o.armed("C21") {
+				r.Check("repeated_release_is_noop", a.releasedAt.Equal(b.releasedAt),
+					"address %s was in cooldown since %v; a write by %s (%s) changed its release time to %v", ip, a.releasedAt, wr.Actor, describeOp(op), b.releasedAt)
+			}
 		case a.kind == kCooling && b.kind == kFree:
 			o.freeSince[ip] = seq
 			if o.armed("C21") && w.cooldown > 0 {
